@@ -538,8 +538,12 @@ class Peer:
             # try to establish the outgoing connection
             self.fsm.change(FSM.ACTIVE)
 
-            if getenv().bgp.passive:
+            # a passive neighbor waits in Active too: the reactor only leaves it alone before its first
+            # connection, and once that session had ended it went to Connect and called its peer itself
+            if getenv().bgp.passive or self.neighbor.session.passive:
                 while not self.proto:
+                    if not self._restart:
+                        raise Interrupted('the peer is stopped')
                     await asyncio.sleep(0)  # Yield control like _NOP
 
             self.fsm.change(FSM.IDLE)
